@@ -3,7 +3,7 @@
      c01_mismatches     model output <> implementation output (correspondence)
      c01_spec_failures  specification oracle on the IMPLEMENTATION's outputs *)
 From IV Require Import Base.Codes Proofs.TwccHdrExtProofs Check.C15Check.
-From IV Require Export Base.Word Model.TwccHdrExt Model.Chain Model.DumpLog Model.ChainTeardown.
+From IV Require Export Base.Word Model.TwccHdrExt Model.Chain Model.DumpLog Model.ChainTeardown Model.CloseErrs Model.Rebind.
 From IV Require Import Proofs.ChainProofs.
 Notation wres := Chain.wres.
 From Coq Require Import Lia.
@@ -185,6 +185,65 @@ Fixpoint run_rops (rs_ : list rw) (tbl : list pkt) (sts : list (rs hdr)) (ops : 
       let '(ok', sts'') := run_rops rs_ tbl sts' tl in (ok && ok', sts'')
   end.
 
+(* ---- more than one BindLocalStream on one chain (round 4) ----
+   The harness binds the case's local stream at the start (binding 0) and, while the application
+   writes, makes further bindings on the same chain (the same SSRC again - with or without an
+   UnbindLocalStream in between - or a second stream with another SSRC), each with a next writer of
+   its own.  Every Write goes through one binding's writer.  Observed per Write, besides the [wop]:
+   the binding it went through and the calls that reached ANOTHER binding's next writer
+   (binding, packet index).
+   Model: every binding is its own [chain_bind] over the same members; a member's closure state is
+   either created by the Bind call (responder: packet buffer; flexfec: media buffer) or lives in the
+   interceptor and is shared by all its closures (TWCC header extension: sequence counter; the
+   recording members: their counters).  [bsts] holds one state vector per binding (all allocated at
+   the start: a binding's own state is fresh until its first Write, its shared state follows the
+   other bindings' Writes). *)
+Definition with_ssrc (c : cfg) (s : Z) : cfg := let '(_, a, b, d, e, f) := c in (s, a, b, d, e, f).
+Definition shared_kind (k : Z) : bool := negb ((k =? 2) || (k =? 13)).
+(* [mine] with the interceptor-level states taken from [theirs]; kinds in the order of the states *)
+Fixpoint merge_shared (kinds : list Z) (mine theirs : list (ws pkt)) : list (ws pkt) :=
+  match kinds, mine, theirs with
+  | k :: ks, a :: ma, b :: tb => (if shared_kind k then b else a) :: merge_shared ks ma tb
+  | _, _, _ => mine
+  end.
+Fixpoint sync_at (kinds : list Z) (k : nat) (st' : list (ws pkt)) (bsts : list (list (ws pkt))) : list (list (ws pkt)) :=
+  match bsts with
+  | [] => []
+  | x :: tl => match k with
+               | O => st' :: map (fun y => merge_shared kinds y st') tl
+               | S k' => merge_shared kinds x st' :: sync_at kinds k' st' tl
+               end
+  end.
+(* per Write: (binding, calls at other bindings' next writers) *)
+Definition wvia := (Z * list (Z * Z))%type.
+(* SSRC of every binding; the observations; the SSRCs of the local streams the application unbound
+   (UnbindLocalStream) between two bindings *)
+Definition rbobs := (list Z * list wvia * list Z)%type.
+(* stats keeps ONE recorder per SSRC for the local and the remote stream with that SSRC
+   (getRecorder); UnbindLocalStream stops and releases it (releaseRecorder), a later Bind makes a new
+   one, but the remote stream's closure still holds the stopped recorder, whose QueueIncomingRTP
+   returns at once: from then on the RTP read closure records nothing (Model/Rebind.v,
+   r_stats_stopped).  (The harness gives the remote stream the SSRC of the local one.) *)
+Definition rd_of_u (unbound : list Z) (c : cfg) (m : member_desc) : rw :=
+  if (fst m =? 9) && existsb (Z.eqb (c_ssrc c)) unbound then r_stats_stopped else rd_of c m.
+
+(* states are kept outermost first: their kinds are the members' kinds reversed *)
+Fixpoint run_wops_b (cf : cfg) (ms : list member_desc) (tbl : list pkt) (ssrcs : list Z)
+    (bsts : list (list (ws pkt))) (ops : list wop) (vias : list wvia) : bool * list (list (ws pkt)) :=
+  match ops with
+  | [] => (true, bsts)
+  | (pi, script, ocalls, ores) :: tl =>
+      let '(v, strays) := hd (0, []) vias in
+      let k := Z.to_nat v in
+      let cfk := with_ssrc cf (nth k ssrcs (c_ssrc cf)) in
+      let '((st', (_, log)), r) :=
+        chain_bind (map (wr_of cfk) ms) script_writer (tb tbl pi) (nth k bsts [], (script, [])) in
+      let ok := list_eqb pkt_eqb log (map (tb tbl) ocalls) && wres_eqb r ores &&
+                match strays with [] => true | _ => false end in
+      let '(ok', bsts') := run_wops_b cf ms tbl ssrcs (sync_at (rev (map fst ms)) k st' bsts) tl (List.tl vias) in
+      (ok && ok', bsts')
+  end.
+
 (* ---- Close ---- *)
 Inductive cm := CLeaf (e : Z) (* 0 = nil, else sentinel id *) | CChain (l : list cm).
 Fixpoint cm_err (c : cm) : option err :=
@@ -201,6 +260,30 @@ Definition close_model_ok (ms : list cm) (o : closeobs) : bool :=
   let e := cm_err (CChain ms) in
   Bool.eqb (match e with None => true | Some _ => false end) onil &&
   forallb (fun ib => Bool.eqb (match e with None => false | Some x => err_is x (fst ib) end) (snd ib)) ois.
+
+(* ---- the Close error, entry by entry (round 4) ----
+   [scm]: the chain as a tree with the error value each member's Close returns (0 nil, id that
+   sentinel value itself, -id a value of its own wrapping the sentinel); observed: the returned error
+   as a tree (multiError entries, nested chains nested; 900 = a value no member returned) and the
+   lines of its message as signed ids.  Model: flattenErrs keeps every non-nil error, in order. *)
+Definition cerrobs := (list cm * option err * list Z)%type.
+Fixpoint err_eqb (a b : err) : bool :=
+  match a, b with
+  | ELeaf x, ELeaf y => x =? y
+  | EMulti l, EMulti m => (fix go (l m : list err) : bool :=
+                             match l, m with
+                             | [], [] => true
+                             | x :: tl, y :: tm => err_eqb x y && go tl tm
+                             | _, _ => false
+                             end) l m
+  | _, _ => false
+  end.
+Definition oerr_eqb (a b : option err) : bool :=
+  match a, b with None, None => true | Some x, Some y => err_eqb x y | _, _ => false end.
+Definition close_tree_ok (o : cerrobs) : bool :=
+  let '(scm, oe, lines) := o in
+  let e := cm_err (CChain scm) in
+  oerr_eqb e oe && list_eqb Z.eqb (oerr_leaves e) lines.
 
 (* ---- teardown histories (round 3) ----
    The harness issues the lifecycle calls UnbindLocalStream (0) / UnbindRemoteStream (1) / Close (2)
@@ -243,7 +326,8 @@ Definition iobs := (Z * Z * list Z)%type.
 
 Definition c01_case :=
   (cfg * list member_desc * list pkt * list wop * list rop * list rop * list wop
-   * list cm * closeobs * list (Z * Z * Z) * list Z * list aobs * list iobs * list tdobs)%type.
+   * list cm * closeobs * list (Z * Z * Z) * list Z * list aobs * list iobs * list tdobs
+   * cerrobs * rbobs)%type.
 
 (* ---- injections: a member calling its own inner writer (chain_inject), replayed ---- *)
 Fixpoint run_injs (outer : list (wrapper pkt)) (tbl : list pkt) (sts : list (ws pkt)) (l : list iobs) : bool :=
@@ -295,9 +379,11 @@ Definition counts_ok (n : nat) (wsts : list (ws pkt)) (rsts : list (rs hdr)) (co
              if side =? 0 then w_ctr (nth pos wsts ws0) =? v else r_ctr (nth pos rsts rs0) =? v) counts.
 
 Definition c01_model_code (c : c01_case) : nat :=
-  let '(cf, ms, tbl, wops, rops, crops, cwops, cms, cobs, counts, _, aos, ios, tds) := c in
-  let '(okw, wsts) := run_wops (map (wr_of cf) ms) tbl (init_ws ms) wops in
-  let '(okr, rsts) := run_rops (map (rd_of cf) ms) tbl (init_rs ms) rops in
+  let '(cf, ms, tbl, wops, rops, crops, cwops, cms, cobs, counts, _, aos, ios, tds, ceo, rb) := c in
+  let '(ssrcs, vias, unb) := rb in
+  let '(okw, bsts) := run_wops_b cf ms tbl ssrcs (map (fun _ => init_ws ms) ssrcs) wops vias in
+  let wsts := hd (init_ws ms) bsts in
+  let '(okr, rsts) := run_rops (map (rd_of_u unb cf) ms) tbl (init_rs ms) rops in
   let '(okcr, _) := run_rops (map crd_of ms) tbl (init_rs ms) crops in
   let '(okcw, _) := run_wops (map cwr_of ms) tbl (init_ws ms) cwops in
   if negb okw then 1%nat else if negb okr then 2%nat else if negb okcr then 3%nat
@@ -305,7 +391,8 @@ Definition c01_model_code (c : c01_case) : nat :=
   else if negb (counts_ok (length ms) wsts rsts counts) then 6%nat
   else if negb (run_injs (rev (map (wr_of cf) ms)) tbl wsts ios) then 7%nat
   else if negb (forallb (alias_model_ok ms tbl cwops) aos) then 8%nat
-  else if negb (td_model_ok (map fst ms) cms tds) then 9%nat else 0%nat.
+  else if negb (td_model_ok (map fst ms) cms tds) then 9%nat
+  else if negb (close_tree_ok ceo) then 10%nat else 0%nat.
 
 Definition c01_mismatches (cases : list c01_case) : list (Z * Z) := find_codes c01_model_code cases 0.
 
@@ -435,10 +522,39 @@ Fixpoint td_spec (prev : list ctr3) (tds : list tdobs) : nat :=
   end.
 Definition td_count (o : tdop) (tds : list tdobs) : Z := count_op o (map (fun t => tdop_of (fst t)) tds).
 
+(* "every RTP packet the application writes reaches the next writer": the next writer of the binding
+   it was written through.  Code 7: a call made during a Write arrived at the next writer of ANOTHER
+   binding of the chain (what arrived at its own is judged by [wop_spec]: nothing there = code 1). *)
+Definition rb_code (v : wvia) : nat := match snd v with [] => 0%nat | _ => 7%nat end.
+
+(* "with all Close errors preserved": the error Close returns holds every failing member's error,
+   as often as members returned it (two members failing with one and the same value are two
+   errors), and nothing else; so does its message.  Order is not asked.
+   Codes: 77 a member's Close error is missing from the result (fewer entries of that value than
+   members that returned it), 78 the result holds an error (or more copies of one) no member
+   returned, 79 the same for the lines of the message. *)
+Definition count_z (x : Z) (l : list Z) : nat := length (filter (Z.eqb x) l).
+Definition lost (want got : list Z) : bool := existsb (fun x => (count_z x got <? count_z x want)%nat) want.
+Fixpoint cm_leaves (c : cm) : list Z :=
+  match c with
+  | CLeaf e => [e]
+  | CChain l => (fix go (l : list cm) : list Z := match l with [] => [] | x :: tl => cm_leaves x ++ go tl end) l
+  end.
+Definition nonzero (l : list Z) : list Z := filter (fun z => negb (z =? 0)) l.
+Definition close_mult_code (o : cerrobs) : nat :=
+  let '(scm, oe, lines) := o in
+  let want := nonzero (cm_leaves (CChain scm)) in
+  let got := oerr_leaves oe in
+  if lost want got then 77%nat else if lost got want then 78%nat
+  else if lost want lines || lost lines want then 79%nat else 0%nat.
+
 Definition c01_spec_code (cs : c01_case) : nat :=
-  let '(cf, ms, tbl, wops, rops, crops, cwops, cms, cobs, counts, flags, aos, ios, tds) := cs in
+  let '(cf, ms, tbl, wops, rops, crops, cwops, cms, cobs, counts, flags, aos, ios, tds, ceo, rb) := cs in
   let has_twcc := existsb (fun m => fst m =? 6) ms in
   let sid := if has_twcc then c_sid cf else 0 in
+  match first_code rb_code (snd (fst rb)) with
+  | S k => S k
+  | O =>
   match first_code (wop_spec sid cf false tbl) wops with
   | S k => S k
   | O =>
@@ -470,7 +586,8 @@ Definition c01_spec_code (cs : c01_case) : nat :=
       let lv := leaves (CChain cms) in
       if negb (Bool.eqb onil (match lv with [] => true | _ => false end)) then 72%nat
       else if negb (forallb (fun ib => Bool.eqb (snd ib) (existsb (Z.eqb (fst ib)) lv)) ois) then 73%nat
-      else if negb (nth 0 flags 0 =? 0) then 81%nat
+      else match close_mult_code ceo with S k => S k | O =>
+      if negb (nth 0 flags 0 =? 0) then 81%nat
       else if negb (nth 1 flags 0 =? 0) then 82%nat
       else if negb (nth 2 flags 0 =? 0) then 83%nat
       else if negb (nth 3 flags 0 =? 0) then 84%nat
@@ -478,8 +595,9 @@ Definition c01_spec_code (cs : c01_case) : nat :=
            | S k => S k
            | O => first_code (alias_code sid tbl) aos
            end
+      end
     end
-  end end end end.
+  end end end end end.
 
 Definition c01_spec_failures (cases : list c01_case) : list (Z * Z) := find_codes c01_spec_code cases 0.
 
